@@ -11,7 +11,8 @@ open AL
 theorem fineStep_reg (k : RegKind) (s s' : State) (h : FineStep s s') :
     (s'.reg k = s.reg k) ∨ (∃ wall, RegOp s.nowSecU wall (s.reg k) (s'.reg k)) := by
   cases h with
-  | leaf wall h =>
+  | leaf wall m r hl _ _ h =>
+    have h := leaf_step wall s s' m r hl h
     cases h with
     | ent e _ hs => subst hs; exact Or.inl (by cases k <;> rfl)
     | reg k' r hop hs =>
